@@ -443,4 +443,17 @@ theorem sumE_eq (l : List EV) (h : ∀ v ∈ l, v ≠ EV.nan) :
     | fin x => by_cases h1 : EV.pinf ∈ l <;> by_cases h2 : EV.ninf ∈ l <;> simp [h1, h2, EV.add, finPart]
 
 
+theorem lookup_map_self {β : Type} (l : List String) (f : String → β) (n : String) :
+    (l.map (fun x => (x, f x))).lookup n = if n ∈ l then some (f n) else none := by
+  induction l with
+  | nil => simp
+  | cons x xs ih =>
+    simp only [List.map_cons, List.mem_cons]
+    by_cases e : n = x
+    · subst e; simp
+    · have : (n == x) = false := by simpa using e
+      rw [List.lookup_cons, this, ih]
+      simp [e]
+
+
 end Pew.Overlap
